@@ -1,4 +1,162 @@
-import CM.Model.Rel
+/-
+  C16 — Join implements inner/left/right/outer relational joins on key fields.
+  Property theorems about CM.Model.Rel (tied to /repo by the S-REL correspondence).
+-/
+import CM.Proofs.RelLemmas
 namespace CM.C16
-theorem placeholder : True := trivial
+open CM
+
+/-- the key of entry `i` of dataset `d`: `to_key` of the tuple of its key-field values -/
+def keyOf (d : DS) (on : List String) (i : String) : Except Err String :=
+  (on.mapM fun f => d.value f i).bind joinKey
+
+/-- **Keys are unique on each side.**  When the key table of one side is built without error, it lists every id
+of that side exactly once, with its key, and no key occurs twice; hence two entries of one side with the same key
+tuple (or a non-injective `to_key`) make the join raise. -/
+theorem side_keys_spec (d : DS) (on : List String) :
+    ∀ (ids : List String) (m : List (String × String)), sideKeys d on ids = .ok m →
+      m.map (·.2) = ids ∧ (m.map (·.1)).Nodup ∧ ∀ k i, (k, i) ∈ m → keyOf d on i = .ok k
+  | [], m, h => by
+    simp only [sideKeys] at h; injection h with h; subst h; simp
+  | i :: rest, m, h => by
+    simp only [sideKeys, bind, Except.bind] at h
+    cases hv : on.mapM (fun f => d.value f i) with
+    | error e => simp [hv] at h
+    | ok vals =>
+      cases hk : joinKey vals with
+      | error e => simp [hv, hk] at h
+      | ok k =>
+        cases hr : sideKeys d on rest with
+        | error e => simp [hv, hk, hr] at h
+        | ok m' =>
+          simp only [hv, hk, hr] at h
+          obtain ⟨ih1, ih2, ih3⟩ := side_keys_spec d on rest m' hr
+          split at h
+          · simp at h
+          · next hany =>
+            simp only [pure, Except.pure] at h
+            injection h with h; subst h
+            refine ⟨by simp [ih1], ?_, ?_⟩
+            · simp only [List.map_cons, List.nodup_cons]
+              refine ⟨?_, ih2⟩
+              intro hmem
+              apply hany
+              simp only [List.mem_map] at hmem
+              obtain ⟨p, hp, hpk⟩ := hmem
+              simp only [List.any_eq_true]
+              exact ⟨p, hp, by simp [hpk]⟩
+            · intro k' i' hm
+              cases hm with
+              | head => simp [keyOf, hv, Except.bind, hk]
+              | tail _ hm => exact ih3 k' i' hm
+
+/-- duplicate keys on one side are rejected -/
+theorem duplicates_rejected (d : DS) (on : List String) (ids : List String) (i j k : String)
+    (hi : i ∈ ids) (hj : j ∈ ids) (hne : i ≠ j)
+    (hki : keyOf d on i = .ok k) (hkj : keyOf d on j = .ok k) :
+    ∀ m, sideKeys d on ids ≠ .ok m := by
+  intro m hm
+  obtain ⟨h1, h2, h3⟩ := side_keys_spec d on ids m hm
+  -- both ids occur in the table, with the same key: the keys would not be pairwise different
+  have memi : ∃ k', (k', i) ∈ m := by
+    have : i ∈ m.map (·.2) := by rw [h1]; exact hi
+    simp only [List.mem_map] at this
+    obtain ⟨p, hp, rfl⟩ := this
+    exact ⟨p.1, hp⟩
+  have memj : ∃ k', (k', j) ∈ m := by
+    have : j ∈ m.map (·.2) := by rw [h1]; exact hj
+    simp only [List.mem_map] at this
+    obtain ⟨p, hp, rfl⟩ := this
+    exact ⟨p.1, hp⟩
+  obtain ⟨ki, hmi⟩ := memi
+  obtain ⟨kj, hmj⟩ := memj
+  have e1 := h3 ki i hmi; rw [hki] at e1; injection e1 with e1; subst e1
+  have e2 := h3 kj j hmj; rw [hkj] at e2; injection e2 with e2; subst e2
+  -- two different pairs with the same first component contradict Nodup of the keys
+  have : ∀ (l : List (String × String)), (l.map (·.1)).Nodup → (k, i) ∈ l → (k, j) ∈ l → i = j := by
+    intro l
+    induction l with
+    | nil => intro _ h; cases h
+    | cons p ps ih =>
+      intro hn ha hb
+      simp only [List.map_cons, List.nodup_cons] at hn
+      cases ha with
+      | head =>
+        cases hb with
+        | head => rfl
+        | tail _ hb => exact absurd (List.mem_map.mpr ⟨(k, j), hb, rfl⟩) hn.1
+      | tail _ ha =>
+        cases hb with
+        | head => exact absurd (List.mem_map.mpr ⟨(k, i), ha, rfl⟩) hn.1
+        | tail _ hb => exact ih hn.2 ha hb
+  exact hne (this m h2 hmi hmj)
+
+/-- **Ids by mode**: the ids of the join are exactly the keys selected by the mode. -/
+theorem ids_by_mode (l r : DS) (on : List String) (how : JoinMode) (j : DS) (h : joinDS l r on how = .ok j)
+    (m : JoinMap) (hm : joinMapping l r on = .ok m) :
+    ∃ ids, j.ids = .ok ids ∧ ∀ k, k ∈ ids ↔
+      (k ∈ m.inner.map (·.1) ∨ ((how = .left ∨ how = .outer) ∧ k ∈ m.leftOnly.map (·.1)) ∨
+       ((how = .right ∨ how = .outer) ∧ k ∈ m.rightOnly.map (·.1))) := by
+  simp only [joinDS] at h
+  split at h
+  · simp at h
+  · injection h with h
+    subst h
+    refine ⟨_, by simp only [hm, Except.map]; rfl, ?_⟩
+    intro k
+    rw [mem_sortDedup]
+    cases how <;> simp
+
+/-- a key of neither side is rejected by every data field -/
+theorem unknown_key_rejected (l r : DS) (on : List String) (how : JoinMode) (j : DS) (h : joinDS l r on how = .ok j)
+    (m : JoinMap) (hm : joinMapping l r on = .ok m) (key f : String) (hf : (f == "id") = false)
+    (h1 : m.inner.find? (·.1 == key) = none) (h2 : m.leftOnly.find? (·.1 == key) = none)
+    (h3 : m.rightOnly.find? (·.1 == key) = none) : j.value f key = .error .keyError := by
+  simp only [joinDS] at h
+  split at h
+  · simp at h
+  · injection h with h
+    subst h
+    simp only [hf, hm, h1, h2, h3, Bool.false_eq_true, ↓reduceIte]
+    split
+    · rfl
+    · split <;> rfl
+
+/-- the inner part of the mapping is exactly the keys present on both sides, with the two matching ids -/
+theorem mapping_inner (l r : DS) (on : List String) (m : JoinMap) (hm : joinMapping l r on = .ok m)
+    (lids rids : List String) (hl : l.ids = .ok lids) (hr : r.ids = .ok rids)
+    (lk rk : List (String × String)) (hlk : sideKeys l on lids = .ok lk) (hrk : sideKeys r on rids = .ok rk) :
+    ∀ k i jd, (k, i, jd) ∈ m.inner ↔ ((k, i) ∈ lk ∧ rk.find? (·.1 == k) = some (k, jd)) := by
+  simp only [joinMapping, hl, hr, bind, Except.bind, hlk, hrk, pure, Except.pure] at hm
+  injection hm with hm
+  subst hm
+  intro k i jd
+  simp only [List.mem_filterMap]
+  constructor
+  · rintro ⟨⟨k', i'⟩, hmem, heq⟩
+    cases hf : rk.find? (fun p => p.1 == k') with
+    | none => simp [hf] at heq
+    | some p =>
+      simp only [hf, Option.map_some, Option.some.injEq, Prod.mk.injEq] at heq
+      obtain ⟨rfl, rfl, rfl⟩ := heq
+      have := List.find?_some hf
+      simp only [beq_iff_eq] at this
+      refine ⟨hmem, ?_⟩
+      rw [hf]; congr 1
+      exact Prod.ext this rfl
+  · rintro ⟨hmem, hf⟩
+    exact ⟨(k, i), hmem, by simp [hf]⟩
+
+/-- non-vacuity: an outer join of {a1:u, a2:v} and {b1:v, b2:w} -/
+example :
+    let l : DS := { fields := ["id", "k", "x"], ids := .ok ["a1", "a2"],
+                    value := fun f i => .ok (if f == "k" then .str (if i == "a1" then "u" else "v") else .app "L.x" [.str i] [] []) }
+    let r : DS := { fields := ["id", "k", "z"], ids := .ok ["b1", "b2"],
+                    value := fun f i => .ok (if f == "k" then .str (if i == "b1" then "v" else "w") else .app "R.z" [.str i] [] []) }
+    (match joinDS l r ["k"] .outer with
+      | .ok j => (match j.ids with | .ok ids => ids == ["u", "v", "w"] | _ => false) &&
+                 (match j.value "z" "u" with | .ok .none => true | _ => false) &&
+                 (match j.value "z" "v" with | .ok (.app _ [.str "b1"] _ _) => true | _ => false)
+      | .error _ => false) = true := by decide +kernel
+
 end CM.C16
